@@ -29,6 +29,9 @@ def replay_array_sum(spec):
 
 
 def replay(spec):
+    if "with_delay" in spec and "via" in spec:          # obligations on py_simulate_model itself (shared with C07)
+        from . import C07
+        return C07.replay(spec)
     if spec.get("kind") == "array_sum":
         return replay_array_sum(spec)
     if spec.get("kind") in ("massaction", "hill"):
